@@ -52,9 +52,9 @@ fn check_exclusion_table() {
 
 pub const RUST_NAMES_QUICK: &[&str] = &[
     // the property's list: keywords, prelude items, generator temporaries
-    "type", "self", "super", "crate", "match", "fn", "mod", "use", "impl", "trait", "where", "async",
+    "type", "guest", "self", "super", "crate", "match", "fn", "mod", "use", "impl", "trait", "where", "async",
     "await", "dyn", "move", "ref", "static", "option", "result", "vec", "string", "box", "some", "none",
-    "ok", "err", "ptr0", "len0", "result0", "ret", "base", "e", "t", "map-key", "vec0", "handle", "guest",
+    "ok", "err", "ptr0", "len0", "result0", "ret", "base", "e", "t", "map-key", "vec0", "handle",
 ];
 
 pub const RUST_NAMES_MORE: &[&str] = &[
